@@ -56,11 +56,11 @@ def canonical (fs : List Force) (v : Vars) : List (Nat × Snap) :=
 theorem inputs_congr (fs : List Force) (v w : Vars) (i : Nat)
     (hp : w.params.getD i [] = v.params.getD i [])
     (hz : (fs.getD i default).gravity = true → w.zeroMag.getD i false = v.zeroMag.getD i false)
-    (ht : w.t = v.t) (hq : w.q = v.q)
+    (ht : w.t = v.t) (hq : w.q = v.q) (hi : w.inst = v.inst) (ho : w.opt = v.opt)
     (hu : (fs.getD i default).gravity = false → (fs.getD i default).posOnly = false → w.u = v.u ∧ w.z = v.z) :
     inputs fs w i = inputs fs v i := by
   unfold inputs
-  simp only [hp, ht, hq]
+  simp only [hp, ht, hq, hi, ho]
   by_cases hg : (fs.getD i default).gravity = true
   · rw [if_pos hg, if_pos hg, hz hg]
   · rw [if_neg hg, if_neg hg]
@@ -104,10 +104,12 @@ structure SameCore (a b : St) : Prop where
   cv : b.cachedValid = a.cachedValid
   ct : b.cacheTotal = a.cacheTotal
   tot : b.total = a.total
+  m : b.m = a.m
 
-theorem SameCore.refl (a : St) : SameCore a a := ⟨rfl, rfl, rfl, rfl, rfl⟩
+theorem SameCore.refl (a : St) : SameCore a a := ⟨rfl, rfl, rfl, rfl, rfl, rfl⟩
 theorem SameCore.trans {a b c : St} (h1 : SameCore a b) (h2 : SameCore b c) : SameCore a c :=
-  ⟨h2.vars.trans h1.vars, h2.stage.trans h1.stage, h2.cv.trans h1.cv, h2.ct.trans h1.ct, h2.tot.trans h1.tot⟩
+  ⟨h2.vars.trans h1.vars, h2.stage.trans h1.stage, h2.cv.trans h1.cv, h2.ct.trans h1.ct, h2.tot.trans h1.tot,
+   h2.m.trans h1.m⟩
 
 theorem ensure_spec (fs : List Force) (st : St) (i : Nat) (h : LInv fs st) (hs : 5 ≤ st.stage)
     (hg : (fs.getD i default).gravity = true) :
@@ -122,7 +124,7 @@ theorem ensure_spec (fs : List Force) (st : St) (i : Nat) (h : LInv fs st) (hs :
     by_cases h2 : st.vars.zeroMag.getD i false = true
     · rw [if_pos h2]
       refine ⟨⟨by simp [h.lenF], h.lenS, ?_, fun hlt => absurd hs (by simp only at hlt; omega), h.zero⟩,
-              ⟨rfl, rfl, rfl, rfl, rfl⟩, h.zero i hg h2⟩
+              ⟨rfl, rfl, rfl, rfl, rfl, rfl⟩, h.zero i hg h2⟩
       intro k hk hf
       by_cases hki : k = i
       · subst hki; exact h.zero k hk h2
@@ -130,7 +132,7 @@ theorem ensure_spec (fs : List Force) (st : St) (i : Nat) (h : LInv fs st) (hs :
         exact h.lazy k hk hf
     · rw [if_neg h2]
       refine ⟨⟨by simp [h.lenF], by simp [h.lenS], ?_, fun hlt => absurd hs (by simp only at hlt; omega), ?_⟩,
-              ⟨rfl, rfl, rfl, rfl, rfl⟩, ?_⟩
+              ⟨rfl, rfl, rfl, rfl, rfl, rfl⟩, ?_⟩
       · intro k hk hf
         by_cases hki : k = i
         · subst hki; exact getD_setAt_self _ _ _ _ (by rw [h.lenS]; exact hi)
@@ -154,9 +156,9 @@ theorem calc_spec (fs : List Force) (st : St) (i : Nat) (h : LInv fs st) (hs : 5
   · rw [if_pos hg]
     have h' : LInv fs { st with calls := bumpAt st.calls i } := ⟨h.lenF, h.lenS, h.lazy, h.low, h.zero⟩
     obtain ⟨a, b, c⟩ := ensure_spec fs { st with calls := bumpAt st.calls i } i h' hs hg
-    exact ⟨a, ⟨b.vars, b.stage, b.cv, b.ct, b.tot⟩, by simp only [contrib]; rw [c]⟩
+    exact ⟨a, ⟨b.vars, b.stage, b.cv, b.ct, b.tot, b.m⟩, by simp only [contrib]; rw [c]⟩
   · rw [if_neg hg]
-    exact ⟨⟨h.lenF, h.lenS, h.lazy, h.low, h.zero⟩, ⟨rfl, rfl, rfl, rfl, rfl⟩, rfl⟩
+    exact ⟨⟨h.lenF, h.lenS, h.lazy, h.low, h.zero⟩, ⟨rfl, rfl, rfl, rfl, rfl, rfl⟩, rfl⟩
 
 theorem calcAll_spec (fs : List Force) (is : List Nat) (st : St) (h : LInv fs st) (hs : 5 ≤ st.stage) :
     LInv fs (st.calcAll fs is).1 ∧ SameCore st (st.calcAll fs is).1 ∧
@@ -169,6 +171,180 @@ theorem calcAll_spec (fs : List Force) (is : List Nat) (st : St) (h : LInv fs st
     simp only [St.calcAll]
     refine ⟨a2, b1.trans b2, ?_⟩
     simp only [List.map_cons, c1, c2, b1.vars]
+
+
+/-! ### the matter subsystem's entries: flags and contents -/
+
+theorem MC.flag_setFlag (m : MC) (e e' : ME) (b : Bool) :
+    (m.setFlag e b).flag e' = if e' = e then b else m.flag e' := by
+  cases e <;> cases e' <;> rfl
+theorem MC.snap_setFlag (m : MC) (e e' : ME) (b : Bool) : (m.setFlag e b).snap e' = m.snap e' := by
+  cases e <;> cases e' <;> rfl
+theorem MC.flag_setSnap (m : MC) (e e' : ME) (s : Snap) : (m.setSnap e s).flag e' = m.flag e' := by
+  cases e <;> cases e' <;> rfl
+theorem MC.snap_setSnap (m : MC) (e e' : ME) (s : Snap) :
+    (m.setSnap e s).snap e' = if e' = e then s else m.snap e' := by
+  cases e <;> cases e' <;> rfl
+
+theorem MC.flag_clear (es : List ME) (m : MC) (e' : ME) :
+    (m.clear es).flag e' = (m.flag e' && !(es.contains e')) := by
+  induction es generalizing m with
+  | nil => simp [MC.clear]
+  | cons e es ih =>
+    have : m.clear (e :: es) = (m.setFlag e false).clear es := rfl
+    rw [this, ih, MC.flag_setFlag, List.contains_cons]
+    by_cases h : e' = e
+    · subst h; simp
+    · rw [if_neg h]
+      have : (e' == e) = false := by simpa using h
+      rw [this]; simp
+
+theorem MC.snap_clear (es : List ME) (m : MC) (e' : ME) : (m.clear es).snap e' = m.snap e' := by
+  induction es generalizing m with
+  | nil => rfl
+  | cons e es ih =>
+    have : m.clear (e :: es) = (m.setFlag e false).clear es := rfl
+    rw [this, ih, MC.snap_setFlag]
+
+theorem MC.flag_mark (m : MC) (e e' : ME) (s : Snap) : (m.mark e s).flag e' = if e' = e then true else m.flag e' := by
+  unfold MC.mark; rw [MC.flag_setSnap, MC.flag_setFlag]
+theorem MC.snap_mark (m : MC) (e e' : ME) (s : Snap) : (m.mark e s).snap e' = if e' = e then s else m.snap e' := by
+  unfold MC.mark; rw [MC.snap_setSnap, MC.snap_setFlag]
+
+/-- "whatever is marked valid was computed from the values `v`" -/
+def MC.Cur (m : MC) (v : Vars) : Prop := ∀ e, m.flag e = true → m.snap e = minputs v e
+
+theorem MC.Cur.mark {m : MC} {v : Vars} (h : m.Cur v) (e : ME) : (m.mark e (minputs v e)).Cur v := by
+  intro e' hf
+  rw [MC.snap_mark]
+  rw [MC.flag_mark] at hf
+  by_cases he : e' = e
+  · rw [if_pos he, he]
+  · rw [if_neg he] at hf ⊢; exact h e' hf
+
+theorem MC.Cur.ensure {m : MC} {v : Vars} (h : m.Cur v) (e : ME) : (m.ensure e (minputs v e)).Cur v := by
+  unfold MC.ensure; split
+  · exact h
+  · exact h.mark e
+
+theorem MC.flag_ensure_self (m : MC) (e : ME) (s : Snap) : (m.ensure e s).flag e = true := by
+  unfold MC.ensure; split
+  · assumption
+  · rw [MC.flag_mark, if_pos rfl]
+
+theorem MC.flag_ensure_mono (m : MC) (e e' : ME) (s : Snap) (h : m.flag e' = true) : (m.ensure e s).flag e' = true := by
+  unfold MC.ensure; split
+  · exact h
+  · rw [MC.flag_mark]; split
+    · rfl
+    · exact h
+
+theorem MC.flag_ensure_of (m : MC) (e e' : ME) (s : Snap) (h : (m.ensure e s).flag e' = true) :
+    m.flag e' = true ∨ e' = e := by
+  unfold MC.ensure at h; split at h
+  · exact Or.inl h
+  · rw [MC.flag_mark] at h
+    by_cases he : e' = e
+    · exact Or.inr he
+    · rw [if_neg he] at h; exact Or.inl h
+
+theorem MC.snap_ensure_ne (m : MC) (e e' : ME) (s : Snap) (h : e' ≠ e) : (m.ensure e s).snap e' = m.snap e' := by
+  unfold MC.ensure; split
+  · rfl
+  · rw [MC.snap_mark, if_neg h]
+
+/-- folding `ensure` over a list of entries -/
+def MC.ensureAll (m : MC) (v : Vars) (l : List ME) : MC := l.foldl (fun m e => m.ensure e (minputs v e)) m
+
+theorem MC.advance_eq (m : MC) (a b : Nat) (v : Vars) : m.advance a b v = m.ensureAll v (MC.toEnsure a b) := rfl
+
+theorem MC.Cur.ensureAll {v : Vars} (l : List ME) {m : MC} (h : m.Cur v) : (m.ensureAll v l).Cur v := by
+  induction l generalizing m with
+  | nil => exact h
+  | cons e es ih => exact ih (h.ensure e)
+
+theorem MC.flag_ensureAll_mono (v : Vars) (l : List ME) (m : MC) (e' : ME) (h : m.flag e' = true) :
+    (m.ensureAll v l).flag e' = true := by
+  induction l generalizing m with
+  | nil => exact h
+  | cons e es ih => exact ih _ (MC.flag_ensure_mono m e e' _ h)
+
+theorem MC.flag_ensureAll_mem (v : Vars) (l : List ME) (m : MC) (e' : ME) (h : e' ∈ l) :
+    (m.ensureAll v l).flag e' = true := by
+  induction l generalizing m with
+  | nil => cases h
+  | cons e es ih =>
+    rcases List.mem_cons.mp h with rfl | h'
+    · exact MC.flag_ensureAll_mono v es _ _ (MC.flag_ensure_self m _ _)
+    · exact ih _ h'
+
+theorem MC.flag_ensureAll_of (v : Vars) (l : List ME) (m : MC) (e' : ME) (h : (m.ensureAll v l).flag e' = true) :
+    m.flag e' = true ∨ e' ∈ l := by
+  induction l generalizing m with
+  | nil => exact Or.inl h
+  | cons e es ih =>
+    rcases ih _ h with h1 | h1
+    · rcases MC.flag_ensure_of m e e' _ h1 with h2 | h2
+      · exact Or.inl h2
+      · exact Or.inr (by rw [h2]; exact List.mem_cons_self)
+    · exact Or.inr (List.mem_cons_of_mem _ h1)
+
+theorem MC.snap_ensureAll_notMem (v : Vars) (l : List ME) (m : MC) (e' : ME) (h : e' ∉ l) :
+    (m.ensureAll v l).snap e' = m.snap e' := by
+  induction l generalizing m with
+  | nil => rfl
+  | cons e es ih =>
+    have h1 : e' ≠ e := fun hx => h (by rw [hx]; exact List.mem_cons_self)
+    have h2 : e' ∉ es := fun hx => h (List.mem_cons_of_mem _ hx)
+    exact (ih _ h2).trans (MC.snap_ensure_ne m e e' _ h1)
+
+theorem mem_toEnsure (a b : Nat) (e : ME) : e ∈ MC.toEnsure a b ↔ (e ≠ .cbi ∧ a < e.comp ∧ e.comp ≤ b) := by
+  unfold MC.toEnsure
+  simp only [List.mem_filter, Bool.and_eq_true, decide_eq_true_eq]
+  cases e <;> simp [ME.comp]
+
+/-! ### operations on the force caches leave the matter entries alone -/
+
+theorem ensure_m (fs : List Force) (st : St) (i : Nat) : (st.ensure fs i).m = st.m := by
+  unfold St.ensure; split
+  · rfl
+  · split <;> rfl
+theorem ensure_vars (fs : List Force) (st : St) (i : Nat) : (st.ensure fs i).vars = st.vars := by
+  unfold St.ensure; split
+  · rfl
+  · split <;> rfl
+theorem ensure_stage (fs : List Force) (st : St) (i : Nat) : (st.ensure fs i).stage = st.stage := by
+  unfold St.ensure; split
+  · rfl
+  · split <;> rfl
+
+theorem calc_m (fs : List Force) (st : St) (i : Nat) : (st.calc fs i).1.m = st.m := by
+  unfold St.calc; simp only; split
+  · exact ensure_m fs _ i
+  · rfl
+
+theorem calcAll_m (fs : List Force) (is : List Nat) (st : St) : (st.calcAll fs is).1.m = st.m := by
+  induction is generalizing st with
+  | nil => rfl
+  | cons i is ih => simp only [St.calcAll]; rw [ih, calc_m]
+
+theorem dynamics_m (fs : List Force) (st : St) : (st.dynamics fs).m = st.m := by
+  unfold St.dynamics
+  split
+  · exact calcAll_m fs _ st
+  · split
+    · exact calcAll_m fs _ st
+    · exact calcAll_m fs _ st
+
+theorem foldl_ensure_frame (fs : List Force) (l : List Nat) (st : St) :
+    (l.foldl (fun acc i => acc.ensure fs i) st).m = st.m ∧ (l.foldl (fun acc i => acc.ensure fs i) st).vars = st.vars ∧
+    (l.foldl (fun acc i => acc.ensure fs i) st).stage = st.stage := by
+  induction l generalizing st with
+  | nil => exact ⟨rfl, rfl, rfl⟩
+  | cons i is ih =>
+    simp only [List.foldl_cons]
+    obtain ⟨a, b, c⟩ := ih (st.ensure fs i)
+    exact ⟨a.trans (ensure_m fs st i), b.trans (ensure_vars fs st i), c.trans (ensure_stage fs st i)⟩
 
 /-! ### filtering the one-pass result -/
 
